@@ -40,9 +40,16 @@ TRUSTED_BASE = [
 ]
 
 
+def limit_memory() -> None:
+    """Every coqc (also under make) gets an address-space ceiling: a proof script that diverges must fail, not swap."""
+    import resource
+    cap = 16 * 1024 ** 3
+    resource.setrlimit(resource.RLIMIT_AS, (cap, cap))
+
+
 def sh(cmd: List[str], timeout: int, cwd: str = COQ) -> Tuple[int, str]:
     try:
-        p = subprocess.run(cmd, capture_output=True, text=True, timeout=timeout, cwd=cwd)
+        p = subprocess.run(cmd, capture_output=True, text=True, timeout=timeout, cwd=cwd, preexec_fn=limit_memory)
         return p.returncode, p.stdout + p.stderr
     except subprocess.TimeoutExpired:
         return 124, "timeout"
